@@ -25,7 +25,9 @@ Import ListNotations.
 Inductive cop := OpM | OpI | OpD | OpN | OpS | OpH | OpP | OpEQ | OpX.
 Definition cigar := list (cop * nat).
 
-(* The three rules found defective by the correspondence check, each switchable to its repair:
+(* The rules found defective by the correspondence check, each switchable to its repair.  Rules 0-3 have been repaired
+   in /repo (fix: commits 8735279, 7e88262, ad24a2d, 064e8b6); `original_rules` keeps the code as it was, for the
+   `_refuted` witness theorems; `current_rules` is the code as it is now.
      r_skip_consumed   cigar_prefix_length at a reference skip (N): false = the code (reports the *requested*
                        number of reference bases), true = repaired (reports the bases actually consumed,
                        like at the end of the read)
@@ -44,7 +46,8 @@ Definition cigar := list (cop * nat).
                        filter applies to supplementary alignments only) *)
 Record rules := mkRules { r_skip_consumed : bool; r_ins_left_flank : bool; r_pair_keep_mate : bool;
                           r_ins_span : bool; r_distance : bool }.
-Definition current_rules := mkRules false false false false false.
+Definition original_rules := mkRules false false false false false.
+Definition current_rules := mkRules true true true true false.
 Definition repaired_rules := mkRules true true true true true.
 (* all rules repaired except number k *)
 Definition all_but (k : nat) : rules :=
@@ -835,3 +838,10 @@ Definition single_alignment_kept_statement (R : rules) : Prop :=
   (0 <= threshold)%Z -> ar_supp r = false -> ar_start r <= ar_end r -> In x (ar_vars r) ->
   (forall y, In y (ar_vars r) -> fst (fst y) = fst (fst x) -> y = x) ->
   exists vs, read_from_group R threshold [r] = Some (ar_name r, vs) /\ In x vs.
+
+(* positions strictly increasing (what VcfReader delivers and ReadSetReader.read asserts) *)
+Fixpoint sorted_strict (vs : list ivar) : Prop :=
+  match vs with
+  | [] => True
+  | x :: r => Forall (fun y : ivar => vpos (snd x) < vpos (snd y)) r /\ sorted_strict r
+  end.
